@@ -7,6 +7,7 @@ attributes and child elements).  (For inlined string arrays/lists the document c
 document is identical to the first because the first already wrote them alike.)
 -/
 import CassisModel.Proofs.RoundTripCollFix
+import CassisModel.Proofs.RoundTripCollFixDemo
 
 namespace Cassis.Xmi
 open Cassis.TS Cassis.Traverse
@@ -22,5 +23,28 @@ theorem xmi_roundtrip_coll_fixpoint (K : Consts) (ts : TypeSystem) (cass : List 
     (hload : loadXmi K ts tsIdx cass.length false st.heap doc = .ok ld) :
     ∃ st' : St, saveXmi K ts (cass ++ [ld.cas]) cass.length ld.heap = .ok (doc, st') :=
   xmi_roundtrip_coll_fixpoint_aux K ts cass ci c hp tsIdx doc st ld hc hwf hnull hsave hcoll hdis hmem hmok hload
+
+/-! ### Non-vacuity
+
+All hypotheses hold on the instance `CollDemo` (`Spec/RoundTripCollCheck.lean`; `collDemo_hyps`, evaluated by the
+kernel): inlined arrays of every primitive kind (a StringArray with null and `""` among them), an inlined FSArray,
+FSList, IntegerList, FloatList, StringList, and shared arrays and lists.  So the theorem applies to it.  The evaluated
+runs (save, load, save again, compare) are in `Spec/RoundTripCollFixCheck.lean`. -/
+
+example : ∃ (doc : XDoc) (st st' : St) (ld : Loaded),
+    saveXmi CollDemo.K CollDemo.ts [CollDemo.cas] 0 CollDemo.hp = .ok (doc, st) ∧
+    loadXmi CollDemo.K CollDemo.ts 0 1 false st.heap doc = .ok ld ∧
+    saveXmi CollDemo.K CollDemo.ts ([CollDemo.cas] ++ [ld.cas]) 1 ld.heap = .ok (doc, st') := by
+  obtain ⟨c, doc, st, hc, hs, hwf, hn, hf, hd, hm, hmo⟩ := collDemo_hyps
+  obtain ⟨_, ld, _, hl, _⟩ :=
+    xmi_roundtrip_coll_aux CollDemo.K CollDemo.ts [CollDemo.cas] 0 c CollDemo.hp 0 1 doc st hc hwf hn hs hf hd hm hmo
+  obtain ⟨st', hs'⟩ :=
+    xmi_roundtrip_coll_fixpoint CollDemo.K CollDemo.ts [CollDemo.cas] 0 c CollDemo.hp 0 doc st ld hc hwf hn hs hf hd
+      hm hmo hl
+  exact ⟨doc, st, st', ld, hs, hl, hs'⟩
+
+#print axioms xmi_roundtrip_coll_fixpoint
+#print axioms xmi_roundtrip_coll_again
+#print axioms collDemo_fixpoint
 
 end Cassis.Xmi
